@@ -787,6 +787,7 @@ pub fn run(cfg: &Cfg) -> i32 {
             }
         }
     }
+    scheme_stage(&mut rep, cfg);
     rep.count_n("requests_on_wire", sent_n);
     rep.count_n("refused_locally", refused_n);
     rep.count_n("dont_care_explicit_default", dont_care);
@@ -794,4 +795,105 @@ pub fn run(cfg: &Cfg) -> i32 {
     rep.extra.insert("capability_space".into(), json!(Caps::SPACE));
     rep.extra.insert("capability_sets_explored_by_this_shard".into(), json!(sets.len()));
     rep.finish()
+}
+
+
+const REAL_SCHEMES: &[&str] = &[
+    "http", "https", "ftp", "sftp", "file", "scp", "tftp", "git+ssh", "coap+tcp", "z39.50r", "view-source", "soap.beep", "xmlrpc.beeps",
+    "iris.xpc", "tn3270", "h323", "ms-settings", "svn+ssh", "a", "x-y.z+w",
+];
+
+/// a scheme name of the RFC 3986 grammar: ALPHA *( ALPHA / DIGIT / "+" / "-" / "." ), lower case
+fn gen_scheme(r: &mut crate::util::Prng) -> String {
+    if r.chance(1, 2) {
+        return (*r.pick(REAL_SCHEMES)).to_string();
+    }
+    let mut s = String::new();
+    s.push((b'a' + r.below(26) as u8) as char);
+    for _ in 0..r.range(0, 7) {
+        let c = b"abcdefghijklmnopqrstuvwxyz0123456789+-."[r.below(39)];
+        s.push(c as char);
+    }
+    s
+}
+
+/// URL schemes: any scheme name of the URI grammar may be advertised in the :url capability
+/// (RFC 6241 8.8.3); a request naming a URL is sent iff its scheme is one of the advertised ones.
+fn scheme_stage(rep: &mut Report, cfg: &Cfg) {
+    let n = cfg.count(3_000, 150_000);
+    for i in 0..n {
+        let idx = cfg.case_index(i);
+        let mut r = cfg.prng("C09-schemes", idx);
+        let mut adv: Vec<String> = Vec::new();
+        for _ in 0..r.range(0, 4) {
+            let s = gen_scheme(&mut r);
+            if !adv.contains(&s) {
+                adv.push(s);
+            }
+        }
+        let used = if !adv.is_empty() && r.chance(1, 2) {
+            adv[r.below(adv.len())].clone()
+        } else if !adv.is_empty() && r.chance(1, 2) {
+            // near miss of an advertised one
+            let a = adv[r.below(adv.len())].clone();
+            match r.below(4) {
+                0 => format!("{a}x"),
+                1 if a.len() > 1 => a[..a.len() - 1].to_string(),
+                2 => a.replace(['+', '-', '.'], ""),
+                _ => a.split(['+', '-', '.']).next().unwrap_or("q").to_string(),
+            }
+        } else {
+            gen_scheme(&mut r)
+        };
+        if used.is_empty() {
+            continue;
+        }
+        let permitted = adv.contains(&used);
+        let uris = vec![
+            "urn:ietf:params:netconf:base:1.0".to_string(),
+            "urn:ietf:params:netconf:capability:candidate:1.0".to_string(),
+            format!("urn:ietf:params:netconf:capability:url:1.0?scheme={}", adv.join(",")),
+        ];
+        let uri_refs: Vec<&str> = uris.iter().map(String::as_str).collect();
+        let mut s = match sess::establish(&memwire::server_hello(&uri_refs, "4242")) {
+            sess::Established::Ok(s) => s,
+            other => {
+                rep.violation("url-scheme:hello-rejected", &format!("{other:?}"), json!({"capabilities": uris}));
+                continue;
+            }
+        };
+        let url = format!("{used}://host.example/config.xml");
+        let op = r.below(2);
+        let key = format!("schemes|{adv:?}|{used}|{op}");
+        rep.case(Some(key.as_bytes()));
+        let special = used.contains(['+', '-', '.']) || used.chars().any(|c| c.is_ascii_digit());
+        rep.count(if special { "scheme_cases:with-plus-minus-dot-or-digit" } else { "scheme_cases:letters-only" });
+        rep.count(if permitted { "scheme_cases:advertised" } else { "scheme_cases:not-advertised" });
+        let ex = if op == 0 {
+            unit(s.exchange::<DeleteConfig, _, _>(|b| b.url(url.clone())?.finish(), ok))
+        } else {
+            unit(s.exchange::<EditConfig<Opaque>, _, _>(|b| b.target(Datastore::Candidate)?.url(url.clone())?.finish(), ok))
+        };
+        let opname = if op == 0 { "delete-config" } else { "edit-config" };
+        let class = if special { "non-letter-scheme" } else { "letter-scheme" };
+        let wit = json!({"capabilities": uris, "url": url, "operation": opname, "case_index": idx, "seed": cfg.seed});
+        match ex {
+            Exchange::Reply { request, .. } => {
+                if !permitted {
+                    rep.violation(&format!("sent-without-capability:{opname}:url-scheme"), &format!("scheme {used:?} is not among the advertised {adv:?}"), wit);
+                } else if !String::from_utf8_lossy(&request).contains(&url) {
+                    rep.violation(&format!("url-scheme:{opname}:url-not-in-request"), "", wit);
+                }
+            }
+            Exchange::BuildErr { err, sent } => {
+                if sent {
+                    rep.violation("error-but-sent", &err, wit.clone());
+                }
+                if permitted {
+                    rep.violation(&format!("refused-although-permitted:{opname}:url:{class}"), &format!("scheme {used:?} is advertised ({adv:?}) but the request was refused locally: {err}"), wit);
+                }
+            }
+            other => rep.violation("harness-or-panic", &format!("{other:?}"), wit),
+        }
+    }
 }
